@@ -47,7 +47,8 @@ CONSTANTS Multi,        \* TRUE: multiapp over singleapp chunks; FALSE: one sing
           MaxChunk,     \* chunk files 0..MaxChunk (0 for the single-file appendable)
           MaxBytes,     \* atoms 1..MaxBytes may be appended
           MaxApp,       \* largest single Append
-          MaxOps,       \* bound on the behaviour length
+          MaxOps,       \* bound on the behaviour length (simulation, counterexample search with one worker); exhaustive
+                        \* runs use 99 = none: the state graph is explored to its fixpoint
           RB,           \* reads are examined up to RB bytes past the end of the log
           StaleSuffix, ClampRead,
           SimMode,      \* TRUE: thin out the ReadAt/SetOffset/DiscardUpto instances (behaviour generation)
@@ -375,7 +376,8 @@ CodeEnvelope == /\ TypeOK
                 /\ (Pre = 0 /\ ~rew) => (last.ok /\ Good)
                 /\ Pre > 0 => (last.ok /\ SizeAgrees)
 
-\* behaviours for replay on real appendables
+\* behaviours for replay on real appendables.  The simulator evaluates invariants on the successors it generates, not
+\* only on the one it follows: a simulation prints about two histories per trace; each is a behaviour of the spec.
 \* (the deviating reads of every step are computed here, once per printed behaviour, from the recorded impl states)
 Emit == (EmitDepth > 0 /\ Len(hist) > 0 /\ (Len(hist) = EmitDepth \/ ~Conv)) =>
           PrintT(<<"JSON:", ToJson([ops |-> [i \in 1..Len(hist) |->
